@@ -427,11 +427,17 @@ class Functor(pg_object.Object, utils.Functor):
   def _apply_call_time_overrides_to_members(self, **kwargs):
     """Overrides member values within the scope."""
     assert self._tls is not None
+    # The functor may be re-entered from its own `_call`: restore the overrides
+    # of the outer call when the inner one ends.
+    outer = getattr(self._tls, Functor._TLS_OVERRIDE_MEMBERS_KEY, None)
     setattr(self._tls, Functor._TLS_OVERRIDE_MEMBERS_KEY, kwargs)
     try:
       yield
     finally:
-      delattr(self._tls, Functor._TLS_OVERRIDE_MEMBERS_KEY)
+      if outer is None:
+        delattr(self._tls, Functor._TLS_OVERRIDE_MEMBERS_KEY)
+      else:
+        setattr(self._tls, Functor._TLS_OVERRIDE_MEMBERS_KEY, outer)
 
   def _parse_call_time_overrides(
       self, *args, **kwargs
